@@ -269,3 +269,175 @@ def kani_harnesses(cfg):
     q = cfg['tier'] == 'quick'
     hs = [{'id': 'K4-paging-new', 'harness': 'k4_paging_new', 'quick': True, 'desc': 'Paging::new/size/to_skip on the compiled code, all usize'}, {'id': 'K4-next-page', 'harness': 'k4_next_page', 'desc': 'next_page_from_slice_result on the compiled code (slices <= 4)'}]
     return [h for h in hs if not q or h.get('quick')]
+
+
+# ---------------------------------------------------------------------- handler level: the glue around the list functions
+from framework import run_async
+
+
+class ListTopicsHandler(Obligation):
+    id = 'C13.e-list_topics-handler'
+    tier = 'T3'
+    desc = ('ListTopics handler: malformed paging / project -> INVALID_ARGUMENT; otherwise the response lists exactly the topics of the page the manager returned, '
+            'in that order, under their canonical names, and next_page_token is the encoding of the page\'s offset (empty when there is none)')
+    bounds = {'topics': 2, 'page_size': '1..=1000 after parsing', 'offset': '< 2^32'}
+    unroll = 6
+
+    def body(self, ip, p):
+        ctx = ip.ctx
+        from props.service import sym_managers, proto, request, start_handler
+        from props.C10 import typed_reply
+        from models_core import ok, err
+        from models_sync import StatusV
+        install_tokens(ctx)
+        ctx.on_enqueue = typed_reply
+        h = sym_managers(ctx, p, 2, 1)
+        req = proto(ctx, 'ListTopicsRequest', project=StrTok(p.fresh('project_field')), page_size=S(p.fresh('page_size'), 'i32'), page_token=StrTok(p.fresh('token_field')))
+        seen = []
+        ip.ret_hooks = {r'TopicManager::list_topics$': lambda ip_, c, a, r: seen.append(r)}
+        sz, off, has = p.fresh('pg_size'), p.fresh('pg_off'), p.fresh('pg_has', 'bool')
+        p.assume(z3.And(sz >= 1, sz <= 1000, off >= 0, off < (1 << 32)))
+        paging = mk(ctx, 'Paging', size=S(sz, 'usize'), offset=Enum('Option', z3.If(has, 1, 0), {1: (S(off, 'usize'),)}))
+        pg_ok, pj_ok = p.fresh('paging_ok', 'bool'), p.fresh('project_ok', 'bool')
+        bad = lambda: err(StatusV('invalid_argument'))
+
+        def hook_paging(ip_, c, a):
+            return (ok(paging),) if ip_.path.branch(pg_ok, 'paging ok') else (bad(),)
+
+        def hook_project(ip_, c, a):
+            return (ok(StrTok(p.fresh('project'))),) if ip_.path.branch(pj_ok, 'project ok') else (bad(),)
+        ip.hooks[r'parse_paging$'] = hook_paging
+        ip.hooks[r'parse_project_id$'] = hook_project
+        fut = start_handler(ip, p, 'publisher', 'list_topics', h['publisher'], request(req))
+        res, k = run_async(ip, p, fut, budget=0)
+        return {'ret': res, 'seen': seen, 'pg_ok': pg_ok, 'pj_ok': pj_ok, 'log': list(p.log)}
+
+    def post(self, ip, p, res):
+        ctx = ip.ctx
+        r = res['ret']
+        out = []
+        from props.service import status_code
+        if r.discr == 1:
+            out.append(Claim('only INVALID_ARGUMENT, only for malformed paging or project', z3.And(z3.BoolVal(status_code(r.payload[1][0]) == 'invalid_argument'),
+                                                                                                z3.Or(z3.Not(res['pg_ok']), z3.Not(res['pj_ok'])))))
+            out.append(Claim('rejected before the namespace is read', len(res['seen']) == 0))
+            out.append(Cover('rejected'))
+            return out
+        out.append(Claim('accepted only when paging and project are well-formed', z3.And(res['pg_ok'], res['pj_ok'])))
+        out.append(Claim('the namespace is listed exactly once', len(res['seen']) == 1))
+        if len(res['seen']) != 1:
+            return out
+        page = res['seen'][0].payload[0][0]
+        topics = fld(ctx, page, 'TopicsPage', 'topics')
+        offset = fld(ctx, page, 'TopicsPage', 'offset')
+        resp = r.payload[0][0].fields[0]
+        order = ctx.src.struct_fields('ListTopicsResponse', 'pubsub_proto_generated')
+        items = resp.fields[order.index('topics')]
+        tok = resp.fields[order.index('next_page_token')]
+        out.append(Claim('as many topics as the page holds', items.n == topics.n))
+        torder = ctx.src.struct_fields('Topic', 'pubsub_proto_generated')
+        for i in range(min(len(items.elems), len(topics.elems))):
+            tv = read_loc(topics.elems[i].deref_loc(ip))
+            name = fld(ctx, tv, 'Topic', 'name', 'topics/topic')
+            want = run_to_end(ip.call('<topic_name::TopicName as ToString>::to_string', [Ref(Loc(Cell(name)))]))
+            got = items.elems[i].fields[torder.index('name')]
+            same = (got.tok == want.tok) if hasattr(got, 'tok') and hasattr(want, 'tok') else z3.BoolVal(False)
+            out.append(Claim('item %d is topic %d of the page, under its canonical name' % (i, i), z3.Implies(topics.n > i, same)))
+        od = offset.discr if not isinstance(offset.discr, int) else z3.IntVal(offset.discr)
+        from models_str import Str
+        if isinstance(tok, Str):
+            out.append(Claim('an empty next_page_token only when the page has no offset', z3.And(od == 0, z3.BoolVal(tok.concrete() == b''))))
+            out.append(Cover('last page'))
+        else:
+            pt = run_to_end(ip.call_fn(ctx.fn('PageToken', 'new'), [offset.payload[1][0]]))
+            want = run_to_end(ip.call_fn(ctx.fn('PageToken', 'encode'), [Ref(Loc(Cell(pt)))]))
+            out.append(Claim('next_page_token is the encoding of the page offset', z3.And(od == 1, tok.tok == want.tok) if hasattr(want, 'tok') else False))
+            out.append(Cover('more pages'))
+        out.append(Cover('two topics listed', items.n == 2))
+        return out
+
+
+_obligations_c13 = obligations
+
+
+def obligations(ctx, cfg):
+    return _obligations_c13(ctx, cfg) + [ListTopicsHandler()]
+
+
+from interp import concrete_int
+
+
+class TopicManagerHistory(Obligation):
+    """TopicManager::new() for real, then a fixed history through its public functions - no field of the manager is named"""
+    id = 'C13.f-history-topic-manager'
+    tier = 'T3'
+    desc = ('TopicManager::new(), create a, b, c, delete one of them, create d, then ListTopics of the project: exactly the live topics, in creation order; '
+            'walking it with page size 1 / 2 visits the same sequence once')
+    bounds = {'history': 'create x3, delete (a | b | c), create, list', 'page_size': '1, 2 and 1000'}
+    unroll = 10
+
+    def body(self, ip, p):
+        ctx = ip.ctx
+        install_tokens(ctx)
+        from props.C16 import default_reply
+        ctx.on_enqueue = default_reply
+        mgr = run_to_end(ip.call_fn(ctx.fn('TopicManager', 'new'), []))
+        mcell = Cell(mgr, 'manager')
+        proj = p.fresh('project')
+        ids = [p.fresh('id_%s' % x) for x in 'abcd']
+        p.assume(z3.Distinct(ids))
+        names = [mk(ctx, 'TopicName', project_id=StrTok(proj), topic_id=StrTok(i)) for i in ids]
+        created = []
+        for nm in names[:3]:
+            created.append(run_to_end(ip.call_fn(ctx.fn('TopicManager', 'create_topic'), [Ref(Loc(mcell)), nm])))
+        k = p.choose(3, 'which topic is deleted')
+        delegate = mk(ctx, 'TopicManagerDelegate', state=fld(ctx, mcell.v, 'TopicManager', 'state'))
+        run_to_end(ip.call_fn(ctx.fn('TopicManagerDelegate', 'delete'), [Ref(Loc(Cell(delegate))), Ref(Loc(Cell(names[k])))]))
+        created.append(run_to_end(ip.call_fn(ctx.fn('TopicManager', 'create_topic'), [Ref(Loc(mcell)), names[3]])))
+        pages = {}
+        for size in (1000, 2, 1):
+            seq = []
+            offset = Enum('Option', 0, {})
+            for _ in range(5):
+                paging = run_to_end(ip.call_fn(ctx.fn('Paging', 'new'), [S(z3.IntVal(size), 'usize'), offset]))
+                r = run_to_end(ip.call_fn(ctx.fn('TopicManager', 'list_topics'), [Ref(Loc(mcell)), StrTok(proj), paging]))
+                if r.discr != 0:
+                    seq = None
+                    break
+                page = r.payload[0][0]
+                ts = fld(ctx, page, 'TopicsPage', 'topics')
+                n = concrete_int(ts.n)
+                if n is None:
+                    raise Unsupported('page length is not concrete in a concrete history')
+                seq += [ts.elems[i] for i in range(n)]
+                off = fld(ctx, page, 'TopicsPage', 'offset')
+                od = off.discr if isinstance(off.discr, int) else concrete_int(off.discr)
+                if od != 1:
+                    break
+                offset = off
+            pages[size] = seq
+        return {'names': names, 'k': k, 'created': created, 'pages': pages}
+
+    def post(self, ip, p, res):
+        ctx = ip.ctx
+        names, k = res['names'], res['k']
+        out = [Claim('all four creates succeed', all(c.discr == 0 for c in res['created']))]
+        want = [names[i] for i in range(3) if i != k] + [names[3]]
+        for size, seq in res['pages'].items():
+            out.append(Claim('listing with page size %d succeeds' % size, seq is not None))
+            if seq is None:
+                continue
+            conj = [z3.BoolVal(len(seq) == len(want))]
+            for t, w in zip(seq, want):
+                tv = read_loc(t.deref_loc(ip))
+                conj.append(eq_val(fld(ctx, tv, 'Topic', 'name', 'topics/topic'), w))
+            out.append(Claim('page size %d: exactly the live topics %s in creation order, each once' % (size, ['abcd'[names.index(w)] for w in want]), z3.And(conj)))
+        out.append(Cover('reached'))
+        return out
+
+
+_obligations_c13b = obligations
+
+
+def obligations(ctx, cfg):
+    return _obligations_c13b(ctx, cfg) + [TopicManagerHistory()]
